@@ -224,28 +224,165 @@ def dominators(fn):
     return dom
 
 
+def _decl_index(fn):
+    idx = getattr(fn, '_decl_index', None)
+    if idx is None:
+        idx = {}
+        for d in fn.all_nodes():
+            if d['k'] == 'decl':
+                sc = None
+                for a in fn.ancestors(d):
+                    if a['k'] in ('compound', 'for', 'fn', 'while', 'do', 'if', 'switch'):
+                        sc = a
+                        break
+                idx.setdefault(d.get('name'), []).append((d, sc['i'] if sc is not None else None))
+        fn._decl_index = idx
+    return idx
+
+
 def decl_of(fn, ref):
     """the declaration node a reference to a local denotes: the nearest
     preceding declaration of that name in an enclosing scope"""
-    name = ref['name']
-    decls = [d for d in fn.all_nodes() if d['k'] == 'decl' and d.get('name') == name]
-    if not decls:
+    cands = _decl_index(fn).get(ref['name'])
+    if not cands:
         return None
-    if len(decls) == 1:
-        return decls[0]
+    if len(cands) == 1:
+        return cands[0][0]
     anc = [a['i'] for a in fn.ancestors(ref)]
     best = None
-    for d in decls:
+    for d, sc in cands:
         if d['i'] > ref['i'] and not fn.is_ancestor(d, ref):
             continue
-        # scope of d = nearest compound / for ancestor
-        sc = None
-        for a in fn.ancestors(d):
-            if a['k'] in ('compound', 'for', 'fn', 'while', 'do', 'if', 'switch'):
-                sc = a
-                break
-        if sc is None or sc['i'] in anc:
-            depth = anc.index(sc['i']) if sc is not None else len(anc)
+        if sc is None or sc in anc:
+            depth = anc.index(sc) if sc is not None else len(anc)
             if best is None or depth < best[0]:
                 best = (depth, d)
-    return best[1] if best else decls[0]
+    return best[1] if best else cands[0][0]
+
+
+def stable_defs(fn):
+    """{declaration node id: defining expression node} for locals that are defined
+    exactly once (declaration with initialiser, or a declaration without one
+    followed by a single plain assignment), never otherwise written and never
+    have their address taken, and whose defining expression mentions only
+    parameters that are never written and other such locals, and no call: the
+    local is a name for that expression wherever it is used.  Same-named locals
+    of different scopes are kept apart (keys are declarations)."""
+    cached = getattr(fn, '_stable_defs', None)
+    if cached is not None:
+        return cached
+    defs = {}
+    bad = set()
+    for n in fn.all_nodes():
+        tgt = None
+        if n['k'] == 'decl' and n.get('c'):
+            defs.setdefault(n['i'], []).append(fn.kid(n, 0))
+        elif n['k'] == 'bin' and n['op'].endswith('=') and n['op'] not in ('==', '!=', '<=', '>='):
+            l = strip_casts(fn, fn.kid(n, 0))
+            if l is not None and l['k'] == 'ref' and l.get('dk') == 'local':
+                d = decl_of(fn, l)
+                if d is not None:
+                    if n['op'] == '=':
+                        defs.setdefault(d['i'], []).append(fn.kid(n, 1))
+                    else:
+                        bad.add(d['i'])
+        elif n['k'] == 'un' and n['op'] in ('++', '--', 'post++', 'post--', '&'):
+            l = strip_casts(fn, fn.kid(n, 0))
+            if l is not None and l['k'] == 'ref' and l.get('dk') == 'local':
+                d = decl_of(fn, l)
+                if d is not None:
+                    bad.add(d['i'])
+    params = set(p['name'] for p in fn.params)
+    written_params = set()
+    for n in fn.all_nodes():
+        if n['k'] in ('bin', 'un'):
+            l = strip_casts(fn, fn.kid(n, 0))
+            if l is not None and l['k'] == 'ref' and l.get('dk') == 'param' and (
+                    (n['k'] == 'bin' and n['op'].endswith('=') and n['op'] not in ('==', '!=', '<=', '>=')) or
+                    (n['k'] == 'un' and n['op'] in ('++', '--', 'post++', 'post--', '&'))):
+                written_params.add(l['name'])
+    cand = {i: ds[0] for i, ds in defs.items() if len(ds) == 1 and i not in bad}
+    # writes per declaration, to allow names whose ingredients change only outside
+    # the block in which the name is visible (a loop variable advanced in the loop
+    # header, read by a local declared inside the loop body)
+    wr = {}
+    for n in fn.all_nodes():
+        l = None
+        if n['k'] == 'bin' and n['op'].endswith('=') and n['op'] not in ('==', '!=', '<=', '>='):
+            l = strip_casts(fn, fn.kid(n, 0))
+        elif n['k'] == 'un' and n['op'] in ('++', '--', 'post++', 'post--', '&'):
+            l = strip_casts(fn, fn.kid(n, 0))
+        if l is not None and l['k'] == 'ref' and l.get('dk') == 'local':
+            d = decl_of(fn, l)
+            if d is not None:
+                wr.setdefault(d['i'], []).append(n)
+
+    def scope_of(decl_id):
+        d = fn.nodes[decl_id]
+        for a in fn.ancestors(d):
+            if a['k'] == 'compound':
+                return a
+        return None
+    changed = True
+    while changed:
+        changed = False
+        for i, e in list(cand.items()):
+            ok = True
+            for x in fn.walk(e):
+                if x['k'] == 'call':
+                    ok = False
+                    break
+                if x['k'] == 'ref' and x.get('dk') == 'param' and x['name'] in written_params:
+                    ok = False
+                    break
+                if x['k'] == 'ref' and x.get('dk') == 'local':
+                    d = decl_of(fn, x)
+                    if d is None or d['i'] == i:
+                        ok = False
+                        break
+                    if d['i'] not in cand:
+                        sc = scope_of(i)
+                        if sc is None or d.get('c') is None and not wr.get(d['i']) or \
+                                any(fn.is_ancestor(sc, w) for w in wr.get(d['i'], [])):
+                            ok = False
+                            break
+            if not ok:
+                del cand[i]
+                changed = True
+    fn._stable_defs = cand
+    return cand
+
+
+def stable_def_of(fn, ref):
+    """the expression a reference to a stable local stands for, or None"""
+    if ref is None or ref['k'] != 'ref' or ref.get('dk') != 'local':
+        return None
+    sd = stable_defs(fn)
+    if not sd:
+        return None
+    d = decl_of(fn, ref)
+    return sd.get(d['i']) if d is not None else None
+
+
+def family(prog, fn, depth=3):
+    """fn and the helpers it is built from: functions of the same translation unit
+    that fn calls directly (transitively up to `depth`), so that a rule anchored
+    on fn still finds a site after an "extract function" refactoring"""
+    out = [fn]
+    seen = set([fn.name])
+    frontier = [fn]
+    for _ in range(depth):
+        nxt = []
+        for g in frontier:
+            for c in g.calls():
+                cal = c.get('callee')
+                if not cal or cal in seen:
+                    continue
+                h = fn.tu.functions.get(cal)
+                if h is None or not getattr(h, 'static', False):
+                    continue
+                seen.add(cal)
+                out.append(h)
+                nxt.append(h)
+        frontier = nxt
+    return out
